@@ -229,7 +229,7 @@ Hypothesis HPf : prox_of X f proxF.
 Record pblk := { pA : LinOp X Y; pgc : cfun Y; pprox : R -> Y -> Y; psig : R }.
 Definition pblk_ok (b : pblk) : Prop := convex Y (pgc b) /\ prox_of Y (pgc b) (pprox b) /\ 0 < psig b.
 Definition mk (b : pblk) : @blk R X Y :=
-  {| bA := pA b; bAt := adj (pA b); bproxGc := pprox b; bsigma := psig b |}.
+  {| bA := pA b; bAt := adj (pA b); bproxGc := pprox b; bsigma := psig b; bproxLc := None; bgradLc := None |}.
 
 (* sum_i L_i^* v_i, accumulated exactly as the code does *)
 Definition SA (bs : list pblk) (vs : list Y) (acc : X) : X := sum_adj X Y vplus (map mk bs) vs acc.
@@ -240,7 +240,10 @@ Definition dual_ok (bs : list pblk) (xs : X) (vs : list Y) : Prop :=
 
 Lemma dual_update_fixed bs xs vs :
   Forall pblk_ok bs -> dual_ok bs xs vs ->
-  map2 (fun b v => bproxGc X Y b (bsigma X Y b) (v +' bsigma X Y b *' bA X Y b xs)) (map mk bs) vs = vs.
+  map2 (fun b v =>
+          let t := match bgradLc X Y b with
+                   | Some G => subW Y vplus smul (bA X Y b xs) (G v) | None => bA X Y b xs end in
+          bproxGc X Y b (bsigma X Y b) (v +' bsigma X Y b *' t)) (map mk bs) vs = vs.
 Proof.
   intros Hok Hd. induction Hd as [|b v bs vs Hbv Hd IH]; cbn; auto.
   inversion Hok as [|? ? (Hc & Hp & Hs) Hok']; subst.
@@ -364,7 +367,7 @@ Proof.
     clear C1 Kf P1 P2 Z1 a c. unfold vhat.
     revert vss Hlen Kd. induction bs as [|b bs IH]; intros [|v vs] Hlen Kd; cbn in Hlen; try discriminate; auto.
     cbn [map map2]. inversion Kd; subst. inversion Hok; subst. f_equal; [|apply IH; auto].
-    cbn [bsigma bA mk]. vec_eq.
+    cbn [bsigma bA bproxLc mk]. vec_eq.
 Qed.
 End DR.
 
